@@ -35,7 +35,8 @@ ODD = ['int', 'str', 'none', 'object', 'func', 'list', 'builtin_cls',
        'providedBy_junk', 'slots', 'slots_provides',
        'pb_attrerror_provides_raises',
        'conform_prop_valueerror', 'conform_prop_attrerror',
-       'conform_typeerror']
+       'conform_typeerror', 'named_none', 'named_int', 'named_like_I0',
+       'iface_noname']
 
 _peer = {'proc': None}
 
